@@ -146,19 +146,21 @@ def oracle(page, secs, snap, tgt, edited_ok):
 
 # ------------------------------------------------------------------ histories with model correspondence
 
-def run_model_history(seed):
+def run_model_history(seed, transform=None):
     import mwparserfromhell
     rng = random.Random(seed)
     text = make_page(rng)
     page = mwparserfromhell.parse(text)
-    ids = Ids()
-    for n in page.nodes:
-        ids.of(n)
-    n0 = len(page.nodes)
     secs = []
     for _ in range(rng.randint(1, 2)):
         secs += page.get_sections(**section_options(rng))
     secs = secs[:5]
+    if transform is not None:     # e.g. pickle round trip of (page, sections): C17
+        page, secs = transform(page, secs)
+    ids = Ids()
+    for n in page.nodes:
+        ids.of(n)
+    n0 = len(page.nodes)
     line = [n0, len(secs)]
     for s in secs:
         si = s.nodes._sliceinfo
